@@ -69,6 +69,12 @@ def run(ck):
     rows = vlib.read_ndjson(tpath)
     for r in rows:
         ins = r["ins"]
+        if "whole" in r:
+            # the instruction's own type (the payload of the enum) contradicts the enum about itself
+            ck.violation(f"table:num_opens:{ins['f']}.{ins['o']}",
+                         f"{ins['f']}.{ins['o']} says it opens {r['opens']} blocks, the instruction enum says {r['whole']}",
+                         {"kind": "num-opens", "ins": ins, "observed": r["opens"], "spec": r["whole"]})
+            continue
         want = table.get(ins["o"], 0) if ins["f"] == "exec" else 0
         if r["opens"] != want:
             ck.violation(f"table:num_opens:{ins['f']}.{ins['o']}",
